@@ -246,10 +246,16 @@ func TestVF_C03(t *testing.T) {
 				}
 				for off := 0; off < rl+2; off++ {
 					// quick tier: all header bytes and the first bytes of every record, a stride elsewhere
-					if !vfThorough() && off > vfRecHdrLen+vfHSHdrLen+8 && (off+ri)%11 != 0 {
+					if !vfThorough() && off > vfRecHdrLen+vfHSHdrLen+8 && (off+ri)%11 != 0 && !(ri == 0 && off < 160) {
 						continue
 					}
-					for _, m := range masks {
+					ms := masks
+					if ri == 0 || vfThorough() {
+						// the hellos carry the negotiated parameters: also the masks that turn one
+						// suite identifier into another (e053^e013=40, e053^e051=02, e053^e011=42)
+						ms = append(append([]byte(nil), masks...), 0x40, 0x02, 0x42)
+					}
+					for _, m := range ms {
 						idx++
 						if vfMine(idx) {
 							c := c03Case{Sc: sc, Edit: c03Edit{Kind: "flip", Dir: dir, Rec: ri, Off: off, Mask: m}}
